@@ -2169,6 +2169,7 @@ def r125(ctx, repo):
             return False
         return pu.complete(pu.params[idx])
 
+    raw_use = set()
     for name in helpers:
         f = funcs[name]
         pu = info[name]
@@ -2227,6 +2228,8 @@ def r125(ctx, repo):
                         and st not in rebinding:
                     continue
             offenders.append(n)
+        if offenders:
+            raw_use.add(name)
         what = sorted({short(_stmt(n), 50) for n in offenders})
         ctx.ob("R12.5", not offenders,
                f"{name}: every statistic is taken from the purged value; "
@@ -2268,6 +2271,13 @@ def r125(ctx, repo):
             except ModelFault as e:
                 bad = bad or f"range / width = {ratio}: {e}"
                 continue
+            except AnalysisError:
+                if "bin_num_doane" in raw_use:
+                    # statistics of the unpurged parameter (reported
+                    # above) cannot be evaluated on data with NaN
+                    bad = None
+                    break
+                raise
             want = round(ratio)
             if got != want:
                 bad = bad or (f"range / width = {float(ratio)}: "
@@ -2279,6 +2289,10 @@ def r125(ctx, repo):
             except ModelFault as e:
                 bad = bad or f"bin width {lab}: {e}"
                 continue
+            except AnalysisError:
+                if "bin_num_doane" in raw_use:
+                    break
+                raise
             if not isinstance(got, int) or got <= 0:
                 bad = bad or (f"bin width {lab}: {got!r} bins (a positive "
                               f"default is required)")
